@@ -285,6 +285,9 @@ func checkC09(e *core.Env) {
 				e.Violate("server/no-deadline", fmt.Sprintf("GRPC-Timeout %q gave the handler no deadline", hv), hv)
 			}
 		default:
+			if p.err != nil && p.h.Sub(p.entry) > time.Second {
+				e.Violate("server/spurious-expiry", fmt.Sprintf("GRPC-Timeout %q: the handler's context was already over (%v) on entry, %v before its deadline, although nobody cancelled the request", hv, p.err, p.h.Sub(p.entry)), hv)
+			}
 			lower := d
 			if overflow || d.Cmp(cap100) > 0 {
 				lower = cap100
@@ -370,6 +373,7 @@ func checkC09(e *core.Env) {
 		run.OnHandler = func(ctx context.Context, _ *Run, _ grpc.ServerStream) {
 			p.entry = time.Now()
 			p.h, p.has = ctx.Deadline()
+			p.err = ctx.Err()
 			p.ran = true
 		}
 		t0 := time.Now()
@@ -396,6 +400,9 @@ func checkC09(e *core.Env) {
 		if !p.has {
 			e.Violate("e2e/deadline-lost", fmt.Sprintf("caller deadline in %v, handler has none", rem), nil)
 			return
+		}
+		if p.err != nil && p.h.Sub(p.entry) > time.Second {
+			e.Violate("e2e/spurious-expiry", fmt.Sprintf("the handler's context was already over (%v) on entry, %v before its deadline and before the caller ended anything", p.err, p.h.Sub(p.entry)), nil)
 		}
 		if p.h.Before(D.Add(-time.Millisecond)) {
 			e.Violate("e2e/too-early", fmt.Sprintf("handler deadline is %v earlier than the caller's", D.Sub(p.h)), nil)
